@@ -43,6 +43,8 @@ type metadataLookup struct {
 	fields map[field.ID]*aggregation.Aggregator
 
 	err error
+	// missing keeps the first select field which is unknown on this node
+	missing error
 }
 
 // NewMetadataLookup creates a metadataLookup instance.
@@ -161,6 +163,9 @@ func (op *metadataLookup) selectList() error {
 			return op.err
 		}
 	}
+	if len(op.fields) == 0 && op.missing != nil {
+		return op.missing
+	}
 	return nil
 }
 
@@ -188,7 +193,11 @@ func (op *metadataLookup) field(parentFunc *stmt.CallExpr, expr stmt.Expr) {
 	case *stmt.FieldExpr:
 		fieldMeta, ok := op.executeCtx.Schema.Fields.Find(field.Name(e.Name))
 		if !ok {
-			op.err = fmt.Errorf("%w, field: %s", constants.ErrFieldNotFound, e.Name)
+			// this node does not know the field(another node may): no data for it here,
+			// an error only if none of the selected fields is known(see selectList).
+			if op.missing == nil {
+				op.missing = fmt.Errorf("%w, field: %s", constants.ErrFieldNotFound, e.Name)
+			}
 			return
 		}
 
